@@ -656,12 +656,6 @@ def main():
 
     geos = sorted(geometries(), key=lambda g: (g[0] * g[1], g))
     lim = 64 if quick else 10**9
-    # P1 every subset of every geometry with at most 14 wells
-    small = [(R, C) for (R, C) in geometries() if R * C <= 14]
-    for (R, C) in sorted(small, key=lambda g: (g[0] * g[1], g)):
-        for bm in range(1 << (R * C)):
-            feed([sel_step(R, C, bm)], "evo_get_selection [exhaustive, <= 14 wells]",
-                 f"all {len(small)} geometries with rows*cols <= 14, every subset of wells (2^(R*C) each), float 0/1 array; strings pairwise distinct", track=True)
     # P3 dimensions up to 255 (two hex digits)
     dims = [1, 2, 9, 10, 11, 15, 16, 17, 26, 27, 31, 32, 48, 49, 99, 100, 127, 128, 129, 159, 160, 161, 175, 176, 199, 200, 239, 240, 254, 255]
     for a in dims:
@@ -684,7 +678,7 @@ def main():
                 feed([sel_step(R, C, bm, rep, rng.choice(list(INTS)))], "evo_get_selection [dtype / layout / integer type]",
                      f"{len(rep_geos)} geometries x 5 selections x 15 array forms (float64/32/16, bool, (u)int8/32/64, Fortran order, transposed view, "
                      "strided and offset views, read-only) x rows/cols as int / numpy int16..64, uint16..64; input array must stay unchanged")
-        if not left(.45):
+        if not left(.35):
             break
     # P5 evo_make_selection_array
     mk_geos = [g for g in geos if g[0] * g[1] <= (24 if quick else 96)] + STANDARD
@@ -726,6 +720,12 @@ def main():
              "neighbours, swapped dimensions, 6 representations of one selection, tips 4 vs Tip.T3, caller-mutated results; all outputs pairwise distinct")
         if not left(.65):
             break
+    # P1 every subset of every geometry with at most 14 wells
+    small = [(R, C) for (R, C) in geometries() if R * C <= 14]
+    for (R, C) in sorted(small, key=lambda g: (g[0] * g[1], g)):
+        for bm in range(1 << (R * C)):
+            feed([sel_step(R, C, bm)], "evo_get_selection [exhaustive, <= 14 wells]",
+                 f"all {len(small)} geometries with rows*cols <= 14, every subset of wells (2^(R*C) each), float 0/1 array; strings pairwise distinct", track=True)
     # P2 every geometry: empty, full, single wells, complements of single wells
     for (R, C) in geos:
         N = R * C
